@@ -234,7 +234,7 @@ def close_all(ctx, facts, b):
     ctx.rule("PAIR-close: on the input-exhausted edge every value of send_channels is closed with its last record id before Ok(None); every close call is dominated by the Continue edge of `?` on input.try_next() and lies on the None side of its Option (never on an error path)")
     dom = b.dominators()
     cl = flow.find_calls(b, re.compile(r"::close$"))
-    vals = [(bb, t) for bb, t in flow.find_calls(b, re.compile(r"HashMap::<K, V, S, A>::(values|values_mut|iter|iter_mut)$")) if "send_channels" in str(flow.expr_of(b, t["args"][0], max_depth=6))]
+    vals = [(bb, t) for bb, t in flow.find_calls(b, re.compile(r"HashMap::<K, V, S, A>::(values|values_mut|iter|iter_mut)$")) if "SendingEnd<" in (b.local_ty(F.op_local(t["args"][0])) or "")]   # the map of sending ends, whatever it is called
     if not cl or not vals:
         return ctx.ob("PAIR-close", "close-loop", False, "no loop closing the send channels when the input ends: peers wait forever / records stay buffered", site_of(b))
     cb, ct = cl[0]
